@@ -1,41 +1,110 @@
 #!/usr/bin/env python3
-"""Run the registered quick checks against the seeded property-breaking changes in /verif/seeded.
+"""Run the registered checks against seeded property-breaking (or behaviour-preserving) changes.
 
-usage: tools/seeded_run.py [ids...]      (default: all whose property has a check)
-Each change is applied to /repo (git apply), the property's quick check is run with evidence and
-replays redirected to a scratch directory, and /repo is restored (git checkout -- .) straight after.
-Results: /verif/seeded/RESULTS.json (which check caught which change)."""
-import json, os, subprocess, sys, time, tempfile
+usage: tools/seeded_run.py [--dir D] [--out F] [--tier quick|thorough] [-j N] [--props C01,C02] [ids...]
+
+Default: every change under /verif/seeded/<id>/ (patch.diff + meta.json), its property's quick check, results in
+/verif/seeded/RESULTS.json.  With --dir D the changes are D/<id>.diff (property = first three characters of the id
+unless --props is given) and the results go to --out.
+
+Neither /repo nor the live /verif is touched: each change is applied to a scratch export of /repo's HEAD
+(`git archive`), selected through VERIF_REPO, and the checks run from a frozen copy of /verif taken at start, with
+evidence and replays redirected to the scratch directory.  This is the same as `git -C /repo apply` + check +
+`git -C /repo checkout -- .`, but several changes can be examined at once and development can go on meanwhile."""
+import concurrent.futures as cf
+import json, os, shutil, subprocess, sys, tempfile, time
+
 VERIF = os.path.dirname(os.path.dirname(os.path.abspath(__file__)))
-sys.path.insert(0, os.path.join(VERIF, "tools"))
-import props
-def main():
-    ids = sys.argv[1:] or sorted(d for d in os.listdir(f"{VERIF}/seeded") if os.path.isdir(f"{VERIF}/seeded/{d}"))
-    respath = f"{VERIF}/seeded/RESULTS.json"
-    results = json.load(open(respath)) if os.path.exists(respath) else {}
-    scratch = tempfile.mkdtemp(prefix="seeded-ev.", dir="/var/tmp")
-    env = dict(os.environ, VERIF_EVIDENCE_DIR=scratch, VERIF_REPLAY_DIR=os.path.join(scratch, "replays"))
-    assert subprocess.run(["git", "-C", "/repo", "status", "--porcelain", "--untracked-files=no"], capture_output=True, text=True).stdout.strip() == "", "/repo not clean"
-    for mid in ids:
-        meta = json.load(open(f"{VERIF}/seeded/{mid}/meta.json"))
-        prop = meta["property"]
-        extra = meta.get("also_check", [])
-        if prop not in props.PROPS or props.PROPS[prop].get("not_applicable"):
-            print(f"{mid}: no check for {prop} yet"); continue
-        r = subprocess.run(["git", "-C", "/repo", "apply", f"{VERIF}/seeded/{mid}/patch.diff"], capture_output=True, text=True)
+HEAVY = {"C01", "C02", "C09", "C10", "C13", "C08"}
+
+
+def run_one(frozen, root, mid, patch, props_to_run, tier):
+    work = os.path.join(root, mid)
+    os.makedirs(work + "/repo")
+    subprocess.run(f"git -C /repo archive HEAD | tar -x -C {work}/repo", shell=True, check=True)
+    r = subprocess.run(["git", "apply", os.path.abspath(patch)], cwd=work + "/repo", capture_output=True, text=True)
+    if r.returncode != 0:
+        r = subprocess.run(["patch", "-p1", "-s", "-i", os.path.abspath(patch)], cwd=work + "/repo", capture_output=True, text=True)
         if r.returncode != 0:
-            print(f"{mid}: patch does not apply: {r.stderr[:200]}"); continue
+            shutil.rmtree(work, ignore_errors=True)
+            return mid, dict(error="patch does not apply: " + (r.stderr or r.stdout)[:200])
+    env = dict(os.environ, VERIF_REPO=work + "/repo", VERIF_EVIDENCE_DIR=work + "/ev", VERIF_REPLAY_DIR=work + "/rep",
+               VERIF_SCRATCH=work)
+    out = {}
+    for prop in props_to_run:
+        t0 = time.time()
         try:
-            t0 = time.time()
-            p = subprocess.run([f"{VERIF}/check", prop, "quick"], cwd=VERIF, env=env, capture_output=True, text=True, timeout=7200)
-            viol = [l for l in p.stdout.splitlines() if l.startswith("VIOLATION")]
-            detail = [l.strip() for l in p.stdout.splitlines() if l.startswith("  harness=")]
-            results[mid] = dict(property=prop, rc=p.returncode, caught=(p.returncode == 1 and bool(viol)),
-                                violation_lines=len(viol), first=detail[:3], wall_s=round(time.time() - t0),
-                                tail=p.stdout.strip().splitlines()[-1:] )
-            print(f"{mid}: rc={p.returncode} caught={results[mid]['caught']} {detail[:1]}", flush=True)
-        finally:
-            subprocess.run(["git", "-C", "/repo", "checkout", "--", "."], check=True)
-        json.dump(results, open(respath, "w"), indent=1, sort_keys=True)
-    subprocess.run(["rm", "-rf", scratch])
+            p = subprocess.run([f"{frozen}/check", prop, tier], cwd=frozen, env=env, capture_output=True, text=True, timeout=4 * 3600)
+            rc, text = p.returncode, p.stdout + p.stderr
+        except subprocess.TimeoutExpired:
+            rc, text = -9, "timeout"
+        viol = [l for l in text.splitlines() if l.startswith("VIOLATION")]
+        detail = [l.strip() for l in text.splitlines() if l.startswith("  harness=")]
+        other = [l.strip()[:300] for l in text.splitlines() if l.startswith(("INCONCLUSIVE", "UNCONFIRMED", "KNOWN-FINDING"))]
+        out[prop] = dict(rc=rc, caught=(rc == 1 and bool(viol)), violation_lines=len(viol), first=detail[:3],
+                         notes=other[:4], wall_s=round(time.time() - t0))
+        print(f"{mid} {prop}: rc={rc} caught={out[prop]['caught']} {round(time.time()-t0)}s {detail[:1] or other[:1]}", flush=True)
+    shutil.rmtree(work, ignore_errors=True)
+    return mid, out
+
+
+def main():
+    args = sys.argv[1:]
+    d = out = None
+    tier, jobs, props_arg = "quick", 1, None
+    ids = []
+    while args:
+        a = args.pop(0)
+        if a == "--dir":
+            d = args.pop(0)
+        elif a == "--out":
+            out = args.pop(0)
+        elif a == "--tier":
+            tier = args.pop(0)
+        elif a == "-j":
+            jobs = int(args.pop(0))
+        elif a == "--props":
+            props_arg = args.pop(0).split(",")
+        else:
+            ids.append(a)
+    items = []
+    if d:
+        for f in sorted(os.listdir(d)):
+            if f.endswith(".diff") and (not ids or f[:-5] in ids):
+                items.append((f[:-5], os.path.join(d, f), props_arg or [f[:3]]))
+        out = out or os.path.join(d, "RESULTS.json")
+    else:
+        for mid in ids or sorted(x for x in os.listdir(f"{VERIF}/seeded") if os.path.isdir(f"{VERIF}/seeded/{x}")):
+            meta = json.load(open(f"{VERIF}/seeded/{mid}/meta.json"))
+            items.append((mid, f"{VERIF}/seeded/{mid}/patch.diff", props_arg or [meta["property"]] + meta.get("also_check", [])))
+        out = out or f"{VERIF}/seeded/RESULTS.json"
+    results = json.load(open(out)) if os.path.exists(out) else {}
+    root = tempfile.mkdtemp(prefix="seeded.", dir="/var/tmp")
+    frozen = os.path.join(root, "verif")
+    subprocess.run(["rsync", "-a", "--exclude", ".git", "--exclude", "evidence", "--exclude", "replays", VERIF + "/", frozen + "/"], check=True)
+    try:
+        light = [it for it in items if not (set(it[2]) & HEAVY)]
+        heavy = [it for it in items if set(it[2]) & HEAVY]
+
+        def record(mid, res):
+            if d is None and "error" not in res:
+                # /verif/seeded/RESULTS.json keeps the historical flat shape for the main property
+                main_prop = json.load(open(f"{VERIF}/seeded/{mid}/meta.json"))["property"]
+                flat = dict(res.get(main_prop, {}), property=main_prop)
+                flat["others"] = {k: v for k, v in res.items() if k != main_prop}
+                results[mid] = flat
+            else:
+                results[mid] = res
+            json.dump(results, open(out, "w"), indent=1, sort_keys=True)
+
+        with cf.ThreadPoolExecutor(max_workers=max(1, jobs)) as ex:
+            futs = [ex.submit(run_one, frozen, root, mid, patch, ps, tier) for mid, patch, ps in light]
+            for f in cf.as_completed(futs):
+                record(*f.result())
+        for mid, patch, ps in heavy:
+            record(*run_one(frozen, root, mid, patch, ps, tier))
+    finally:
+        shutil.rmtree(root, ignore_errors=True)
+
+
 main()
